@@ -1,4 +1,4 @@
-import ExprModel.Types.Checker
+import ExprModel.Types.HasType
 /- driver handlers for the type / name-resolution model (C16) -/
 namespace ExprModel.Drv
 open ExprModel
@@ -135,8 +135,21 @@ def handleCheck : List Sexp → Sexp
     | _, _, _, _, _, _ => bad
   | _ => bad
 
+/-- `(c03-ref <env> <node>)`: the verdict of the reference typing rules (`synth` with the documented
+rule set) — the Spec side of the oracle for ill-typed mutants -/
+def handleRef : List Sexp → Sexp
+  | [.atom "c03-ref", e, n] =>
+    match envOfSexp e, Node.ofSexp n with
+    | some e, some n =>
+      match synth (cfgOfEnv .asIs .repaired e true .none) [] n with
+      | some t => .list [.atom "well", Ty.optToSexp t]
+      | none => .atom "ill"
+    | _, _ => bad
+  | _ => bad
+
 def typesHandlers : List (String × (List Sexp → Sexp)) :=
   [("c16-table", handleTypes), ("c16-fields", handleTypes), ("c16-mset", handleTypes),
-   ("c16-names", handleTypes), ("c16-member", handleTypes), ("c03-check", handleCheck)]
+   ("c16-names", handleTypes), ("c16-member", handleTypes), ("c03-check", handleCheck),
+   ("c03-ref", handleRef)]
 
 end ExprModel.Drv
